@@ -1,6 +1,6 @@
 PID = 'C08'
 PROPS = ['PysphVerif.Props.C08']
-TRANSLATORS = ['kernels2lean.py']
+TRANSLATORS = ['kernels2lean.py', 'kwrapper2lean.py']
 HARNESS = 'harness/c08.py'
 TRUSTED_BASE = [
     'Lean 4.33 kernel + Mathlib; axioms propext, Classical.choice, Quot.sound only (audited per theorem each run)',
@@ -9,6 +9,10 @@ TRUSTED_BASE = [
     'exact real arithmetic stands in for IEEE doubles in the theorems (float literals mean their decimal text)',
     'normalisation is proved in radial form: S_d * integral of q^(d-1) w(q); the polar-coordinate step in R^d is not mechanised',
     'Cython/g++/libm for the compiled twins (compared numerically with the Python classes every run)',
+    'translate/kwrapper2lean.py (statement-by-statement transcription of the ${classname}Wrapper template of c_kernels.pyx.mako; '
+    'anything outside its subset fails loudly; validated every run: the generated code is run on doubles over whole call '
+    'histories and compared bit for bit with real wrappers); Cython semantics of `return a, b, c` (new floats) vs a typed '
+    'memoryview cast (a view) as classified by the translator',
 ]
 ASSUMPTIONS = [
     'h > 0, r >= 0, no NaN/inf',
@@ -35,9 +39,22 @@ LEVEL_TEXT = ("Lean 4 theorems over ALL 21 kernel tables (10 classes x admissibl
               "doubles; powers of two over 30 binades, decimals and random h): agreement with both one-sided values at "
               "q(1 -+ 2^-20) to the accuracy continuity implies and with centred finite differences of kernel() in r and h.  A value "
               "of q that the source treats unlike both neighbouring intervals becomes a degenerate piece [b, b] of the table, so "
-              "table_wellformed (lo < hi on every piece) and the per-piece obligations break instead of the translator deciding.")
+              "table_wellformed (lo < hi on every piece) and the per-piece obligations break instead of the translator deciding.  "
+              "The compiled convenience wrappers are modelled as a state machine over their two scratch members (Model/KernelWrapper.lean, "
+              "code regenerated from the template on every run): for EVERY history of kernel/gradient calls on one wrapper, from any scratch "
+              "contents, every result the caller kept reads after the last call what it read at its return (wrapper_retained_results_unchanged: "
+              "no method returns an object over the wrapper's own storage) and is the pure function of its own arguments "
+              "(wrapper_history_independent), over the reals on every table W(|xi-xj|, h) and gradient_i(xi-xj, |xi-xj|, h) "
+              "(wrapper_returns_kernel_values), hence dW/dr times the unit vector and zero outside the support.  The oracle runs call "
+              "histories (2-8 calls: inside / beyond the support / on a knot / r = 0 / at the guard, one or varying h, one or two interleaved "
+              "live objects, out-buffers re-used or pre-filled with garbage, keyword calls) on Wrapper, compiled class and Python class: "
+              "every result is retained and must still read the same after every later call, equal the same call made first on a new "
+              "object (in this process and in a second process that makes all calls in a shuffled order), equal the Python class, and "
+              "leave its inputs untouched.")
 LEVEL_NOTE = ("Trusted: Lean kernel + Mathlib, axioms propext/Classical.choice/Quot.sound; translate/kernels2lean.py (validated each run, "
               "~12k points quick); exact real arithmetic in place of IEEE doubles (float literals read as decimals); the polar-coordinate "
               "identity int_{R^d} f(|x|) dx = S_d int r^(d-1) f(r) dr is not mechanised (normalisation is claimed in radial form); "
-              "super-Gaussian unit mass is checked numerically only (its fac = pi^(-d/2) is proved); Cython/g++/libm for the compiled twins.")
+              "super-Gaussian unit mass is checked numerically only (its fac = pi^(-d/2) is proved); Cython/g++/libm for the compiled twins; "
+              "translate/kwrapper2lean.py for the wrapper template (validated each run on whole call histories, bit for bit); thread-safety of "
+              "a wrapper shared between threads is out of scope (its scratch members are per object, not per call).")
 TIMEOUT = {'quick': 900, 'thorough': 3600}
